@@ -81,6 +81,9 @@ class Engine:
         self.n_checks = 0
         self.n_checks_reached = 0
         self.n_errors = 0
+        self.xs_every = 0  # cross-check every n-th final query with the cvc5 binary (0 = off)
+        self.xs_checked = self.xs_agree = self.xs_unknown = 0
+        self.xs_disagree = []
         self.frontier = []
         self.deadline = None
         self._decl = {}  # (name, domain) -> (term, constraint, proxy): z3 terms are reused across paths
@@ -318,6 +321,8 @@ class Engine:
         if c is True:
             c = z3.BoolVal(True)
         r = self._check(c)
+        if self.xs_every and r != z3.unknown and self.n_checks % self.xs_every == 0:
+            self._cross_check(c, r, clause)
         if r == z3.unsat:
             return False
         if r == z3.unknown:
@@ -326,6 +331,40 @@ class Engine:
         m = self.solver.model()
         self.violations.append(Violation(clause, self.model_inputs(m), detail))
         return True
+
+    def _cross_check(self, c, r, clause):
+        """re-decide this final query (path condition + negated property) with the cvc5 binary"""
+        import os
+        import subprocess
+        import tempfile
+
+        self.solver.push()
+        self.solver.add(c)
+        text = "(set-logic ALL)\n" + self.solver.to_smt2()
+        self.solver.pop()
+        d = tempfile.mkdtemp(prefix="verif-xs-", dir="/var/tmp")
+        f = os.path.join(d, "q.smt2")
+        try:
+            with open(f, "w") as fh:
+                fh.write(text)
+            p = subprocess.run(["cvc5", "--lang=smt2", "--tlimit=10000", f], capture_output=True, text=True, timeout=30)
+            out = (p.stdout + p.stderr).strip()
+        except Exception as e:  # timeout or missing binary
+            out = "unknown (%s)" % type(e).__name__
+        finally:
+            try:
+                os.remove(f)
+                os.rmdir(d)
+            except OSError:
+                pass
+        self.xs_checked += 1
+        first = out.splitlines()[0].strip() if out else "unknown"
+        if "(error" in out or first not in ("sat", "unsat"):
+            self.xs_unknown += 1
+        elif first == str(r):
+            self.xs_agree += 1
+        else:
+            self.xs_disagree.append(dict(clause=clause, z3=str(r), cvc5=first))
 
     def feasible(self, cond):
         """Is cond satisfiable together with the path condition?  (no violation is recorded)"""
